@@ -233,6 +233,9 @@ enum Outcome {
     Hang,
     /// the worker died (signal / abort): exit description
     Abort(String),
+    /// not run: the run had already seen more than HANG_LIMIT hangs (it is a violation anyway; the
+    /// remaining jobs are skipped so that the harness still finishes in time)
+    Skipped,
 }
 
 struct Worker {
